@@ -6,6 +6,12 @@
       use_shapes=U         : target declarations of all other shapes removed
       both                 : every shape of U applied to every node of F, irrespective of targets
 (A) code vs Impl with the options.
+
+Rules family ((B) only): the same equivalence with advanced=True and SHACL rules (iterate_rules off / on).  To keep "the nodes of F
+the shape already targets" unambiguous while rules change the graph, every shape's targets are first made static (sh:targetNode of
+what it targets on the input data); then validate(advanced, iterate_rules, focus_nodes=F) must equal validate(advanced, iterate_rules)
+on the copy whose sh:targetNode sets are intersected with F — for the report and for the rules' effect on it (a rule must not fire
+for a target outside F, neither in its first pass nor in a later iteration).
 """
 import itertools
 import random
@@ -14,6 +20,7 @@ from rdflib import BNode, Graph, Literal, URIRef
 from rdflib.namespace import RDF, RDFS
 
 import oracle_core
+import rulegen
 import shapegen
 import vcase
 import wire
@@ -85,8 +92,125 @@ def gen_case(rng):
     return gen.g, graph_from_triples(data), [s for s in tops if isinstance(s, URIRef)]
 
 
+def make_static(sg, dg):
+    """every shape's targets as sh:targetNode of what it targets on the input data"""
+    ref = oracle_core.Ref(sg, dg)
+    h = copy_graph(sg)
+    for s in ref.shapes():
+        t = list(ref.targets(s))
+        strip_targets(h, s)
+        for f in t:
+            h.add((s, SH.targetNode, f))
+    return h
+
+
+def directed_rule_case(rng):
+    """a rule shape with static targets T whose rule derives a fact about each target, and a check on the targets' neighbours that
+    depends on that fact: with focus_nodes=F the neighbours outside F must stay underived — in every iteration of the rule"""
+    sg, dg = Graph(), Graph()
+    T = rng.sample(NODES, rng.randint(2, 4))
+    q, d = EX.link, EX.Derived
+    for t in T:
+        dg.add((t, RDF.type, EX.Thing))
+        for u in rng.sample(T, rng.randint(1, 2)):
+            dg.add((t, q, u))
+    S = EX.RuleShape
+    sg.add((S, RDF.type, SH.NodeShape))
+    for t in T:
+        sg.add((S, SH.targetNode, t))
+    r = BNode()
+    sg.add((S, SH.rule, r))
+    kind = rng.choice(["triple-type", "triple-prop", "sparql"])
+    if kind == "sparql":
+        sg.add((r, RDF.type, SH.SPARQLRule))
+        sg.add((r, SH.construct, Literal("CONSTRUCT { $this a <%s> } WHERE { $this a <%s> }" % (d, EX.Thing))))
+    else:
+        sg.add((r, RDF.type, SH.TripleRule))
+        sg.add((r, SH.subject, SH.this))
+        sg.add((r, SH.predicate, RDF.type if kind == "triple-type" else EX.mark))
+        sg.add((r, SH.object, d))
+    if rng.random() < 0.5:
+        # a second rule that only becomes applicable after the first one (needs a second pass with iterate_rules)
+        r2, c = BNode(), BNode()
+        sg.add((S, SH.rule, r2))
+        sg.add((r2, RDF.type, SH.TripleRule))
+        sg.add((r2, SH.order, Literal(0)))
+        sg.add((r, SH.order, Literal(1)))
+        sg.add((r2, SH.subject, SH.this))
+        sg.add((r2, SH.predicate, EX.second))
+        sg.add((r2, SH.object, d))
+        sg.add((r2, SH.condition, c))
+        sg.add((c, SH["class"] if kind != "triple-prop" else SH.hasValue, d))
+        if kind == "triple-prop":
+            sg.remove((c, SH.hasValue, d))
+            pc = BNode()
+            sg.add((c, SH.property, pc))
+            sg.add((pc, SH.path, EX.mark))
+            sg.add((pc, SH.hasValue, d))
+    V = EX.CheckShape if rng.random() < 0.5 else S
+    sg.add((V, RDF.type, SH.NodeShape))
+    for t in T:
+        sg.add((V, SH.targetNode, t))
+    ps = BNode()
+    sg.add((V, SH.property, ps))
+    sg.add((ps, SH.path, q))
+    if kind == "triple-prop":
+        n2, p2 = BNode(), BNode()
+        sg.add((ps, SH.node, n2))
+        sg.add((n2, SH.property, p2))
+        sg.add((p2, SH.path, EX.mark))
+        sg.add((p2, SH.minCount, Literal(1)))
+    else:
+        sg.add((ps, SH["class"], d))
+    return sg, dg, T
+
+
+def rules_family(ctx, out, rng, n):
+    for i in range(2 * n):
+        if i < n:
+            sg0, data, _constructs = rulegen.gen_case(rng)
+            dg = graph_from_triples(data)
+            sg = make_static(sg0, dg)
+        else:
+            sg, dg, _T = directed_rule_case(rng)
+            out.count("rules:directed")
+        iris = sorted(set(t for t in dg.all_nodes() if isinstance(t, URIRef) and str(t).startswith(str(EX)) and "/n" in str(t)), key=str)
+        if not iris:
+            continue
+        for it in (False, True):
+            F = rng.sample(iris, min(len(iris), rng.randint(1, 2)))
+            kw = {"advanced": True, "iterate_rules": it}
+            code = vcase.run_code(sg, dg, dict(kw, focus_nodes=[str(f) for f in F]))
+            sg2 = copy_graph(sg)
+            for s_, _p, f in list(sg2.triples((None, SH.targetNode, None))):
+                if f not in F:
+                    sg2.remove((s_, SH.targetNode, f))
+            ref = vcase.run_code(sg2, dg, kw)
+            out.evaluations += 1
+            out.count("rules:iterate=%d" % it)
+            case = vcase.describe(sg, dg, dict(kw, focus_nodes=[str(f) for f in F]), selection="rules-focus")
+            if code[0] != "ok" or ref[0] != "ok":
+                if code[0] != ref[0] or (code[0] == "err" and code[1] != ref[1]):
+                    out.b_fail.append({"signature": "C13:rules-focus:outcome-differs", "case": case, "with_options": code[:2], "rewritten": ref[:2],
+                                       "rewritten_shapes_ttl": sg2.serialize(format="turtle")})
+                out.count("rules:err")
+                continue
+            dms = vcase.declared_msg_shapes(sg)
+            a, b = vcase.multiset(code[2], dms, True), vcase.multiset(ref[2], dms, True)
+            if a != b or code[1] != ref[1]:
+                hidden = list((b - a).elements())[:3]
+                invented = list((a - b).elements())[:3]
+                out.b_fail.append({"signature": "C13:rules-focus:%s" % ("hides" if hidden and not invented else "invents" if invented and not hidden else "differs"),
+                                   "case": case, "hidden": hidden, "invented": invented, "verdicts": [code[1], ref[1]],
+                                   "rewritten_shapes_ttl": sg2.serialize(format="turtle")})
+            if code[2]:
+                out.nontrivial.add(("rules", i, it))
+            out.count("rules:sub_results:%s" % ("0" if not code[2] else "1+"))
+
+
 def run(ctx, out):
     rng = random.Random(ctx.seed * 86028121 + 13)
+    rules_family(ctx, out, random.Random(ctx.seed * 7919 + 1313), 60 if ctx.tier == "quick" else 600)
     quick = ctx.tier == "quick"
     n = 120 if quick else 1500
     out.rule = ("shapes graphs with 2-3 named top-level shapes (compositions referencing named and anonymous shapes, Core shapes) x "
